@@ -94,13 +94,14 @@ type interpreter struct {
 	goroutines         int32                  // atomically updated
 
 	// symbolic execution state
-	w     *Worker
-	F     *smt.Factory
-	L     strLib
-	run   *run
-	depth int
-	top   *frame
-	pool  map[*value][]value
+	w        *Worker
+	F        *smt.Factory
+	L        strLib
+	run      *run
+	depth    int
+	top      *frame
+	pool     map[*value][]value
+	syncMaps map[*value]*smap
 
 	ulidCounter int
 	race        *raceTrace
